@@ -92,6 +92,19 @@ def _group_reports(ob_reports):
         g[r["verdict"]] += 1
         g["backends"].add(r["backend"].split(" ")[0])
         g["solver_s"] += r["solver_s"]
+    if len(groups) > 1200:
+        # one obligation per *scenario* of a complete case analysis would make the evidence file huge: merge the scenarios of one
+        # clause into one line ("[*]", with the number of scenarios); every single result is still counted
+        merged = {}
+        for k, v in groups.items():
+            m = re.match(r"^(.*?/[a-z]+\.[^\[]*)\[.*$", k)
+            k2 = (m.group(1) + "[*]") if m else k
+            g = merged.setdefault(k2, {"paths": 0, "discharged": 0, "refuted": 0, "undecided": 0, "backends": set(), "solver_s": 0.0, "kind": v["kind"], "scenarios": 0})
+            for f in ("paths", "discharged", "refuted", "undecided", "solver_s"):
+                g[f] += v[f]
+            g["backends"] |= v["backends"]
+            g["scenarios"] += 1
+        groups = merged
     return [{"obligation": k, **{kk: (sorted(vv) if isinstance(vv, set) else round(vv, 3) if isinstance(vv, float) else vv) for kk, vv in v.items()}} for k, v in groups.items()]
 
 
